@@ -16,6 +16,8 @@ The density clause is also run for the adaptive driver (range collapsed to one d
 default and with two mass classes.
 Seven more density shards have biases that are tiny but not zero (2e-10 <= |gamma| <= 1e-5); the closed-form CDF is
 evaluated in a rearranged form that is accurate for any gamma > 0.
+A third of the hostile drivers get displacement masses of their own through update_masses(masses), per atom or per
+coordinate; bound and zeta-relation are judged against the masses the workload handed over.
 """
 from __future__ import annotations
 
@@ -38,7 +40,7 @@ ASSUMPTIONS = [
     "on the pinned code the law departs from the density below |gamma| ~ 1e-14 and is the uniform one below 1e-16, where e^gamma - e^-gamma rounds to zero (observed, inside the statement's exclusion, not alarmed); "
     "at zero force only bound, symmetry-free, and termination are judged",
 ]
-REQUIRED = {"steps_after_retuning": 200, "tail_tests": 10, "steps": 1500, "steps_huge_force": 100, "steps_zero_force": 50, "steps_per_coordinate_delta": 100, "ks_tests": 12, "adaptive_steps": 50, "masses_updated_after_construction": 100}
+REQUIRED = {"steps_with_displacement_masses_given_to_update_masses": 100, "steps_after_retuning": 200, "tail_tests": 10, "steps": 1500, "steps_huge_force": 100, "steps_zero_force": 50, "steps_per_coordinate_delta": 100, "ks_tests": 12, "adaptive_steps": 50, "masses_updated_after_construction": 100}
 SHARD_TIMEOUT = {"quick": 900, "thorough": 3000}
 MAX_ROUNDS = 200
 
@@ -167,6 +169,7 @@ def install(rec: Rec):
     ForceBias.step = step
 
 
+INTENDED_MASSES: dict = {}  # id(driver) -> (driver, (n,3) displacement masses handed to update_masses by the workload)
 INTENDED_DELTA: dict = {}  # id(driver) -> (driver, delta its constructor was given); plain ForceBias only
 INTENDED_POWER: dict = {}  # id(driver) -> (driver, the (n,3) power the workload asked for); the bound is judged against what was asked
 
@@ -191,7 +194,12 @@ def judge_step(rec, drv, pos0, pos1):
     rec.count("rounds_observed", STATE["rounds"])
     n = len(drv.atoms)
     m = drv.atoms.get_masses()
-    scale = np.power(m.min() / m, 1.0)[:, None] ** power_array(drv)
+    own = INTENDED_MASSES.get(id(drv))
+    if own is not None and own[0] is drv:
+        # the masses the workload handed to update_masses() (per atom or per coordinate), not the atoms' own
+        scale = np.power(own[1].min() / own[1], power_array(drv))
+    else:
+        scale = np.power(m.min() / m, 1.0)[:, None] ** power_array(drv)
     asked = INTENDED_DELTA.get(id(drv))
     # plain force bias: the delta the driver was constructed with; adaptive: the delta it has adapted to (C18's subject)
     delta = np.broadcast_to(np.asarray(asked[1] if asked is not None and asked[0] is drv else drv.delta, dtype=float), (n, 3))
@@ -368,6 +376,13 @@ def run_hostile(spec, rec):
                 rec.count("masses_updated_after_construction")
                 if rng.random() < 0.3 and power is not None:
                     drv.masses_scaling_power = power
+            elif rng.random() < 0.3:
+                # displacement masses of the driver's own, handed to update_masses(): fictitious per-atom masses, or
+                # one mass per coordinate; the atoms keep theirs
+                dm = rng.uniform(1, 250, n) if rng.random() < 0.5 else rng.uniform(1, 250, (n, 3))
+                drv.update_masses(dm.copy())
+                INTENDED_MASSES[id(drv)] = (drv, np.broadcast_to(dm[:, None] if dm.ndim == 1 else dm, (n, 3)).copy())
+                rec.count("steps_with_displacement_masses_given_to_update_masses", 3)
             for _ in range(3):
                 drv.step()
                 rec.evaluations += 1
